@@ -144,3 +144,8 @@ func Flush(path string) error {
 	}
 	return os.WriteFile(path, b, 0o644)
 }
+
+var seq int64
+
+// Seq returns a process-wide sequence number (to tell apart cases whose inputs are not recorded).
+func Seq() int64 { mu.Lock(); seq++; v := seq; mu.Unlock(); return v }
